@@ -306,6 +306,7 @@ type Layout struct {
 	EmptyPad   bool   // a blank inside empty brackets
 	Note       bool   // a note on every annotated node
 	ColonPad   bool   // blanks around ':' and before ','
+	RuleSep    string // "" | tab | break : what separates a rule name from its value besides the colon
 	NoteTab    bool   // a tab (not a blank) after the rule object of an annotation: before "- note", or before the end of the annotation
 }
 
@@ -331,6 +332,9 @@ func layoutFromSpec(m map[string]string) Layout {
 	l.Quoted, l.TrailComma, l.Reversed = yes("quoted"), yes("trailComma"), yes("reversed")
 	l.EmptyPad, l.Note, l.ColonPad = yes("emptyPad"), yes("note"), yes("colonPad")
 	l.NoteTab = yes("noteTab")
+	if m["ruleSep"] != "no" {
+		l.RuleSep = m["ruleSep"]
+	}
 	return l
 }
 
@@ -383,7 +387,14 @@ func (r *renderer) rulesText(rules []Rule) string {
 				v += "  ]"
 			}
 		}
-		parts[i] = name + ": " + v
+		switch {
+		case r.l.RuleSep == "tab": // a tab between the name and the colon, another after it
+			parts[i] = name + "\t:\t" + v
+		case r.l.RuleSep == "break" && r.l.Ann != "inline": // the value on the line after its name (multi-line annotations only)
+			parts[i] = name + ":" + r.l.NL + "    " + v
+		default:
+			parts[i] = name + ": " + v
+		}
 	}
 	if r.l.Reversed {
 		for i, j := 0, len(parts)-1; i < j; i, j = i+1, j-1 {
